@@ -603,7 +603,10 @@ class C03(Prop):
         cands = [dst] + (dst[1] if dst[0] == 'union' else [])
         for d in cands:
           if d[0] == src[0]:
-            return c04.PROP.classify(d, src, a[3])
+            cls = c04.PROP.classify(d, src, a[3])
+            if '<-' in cls and member_ok(tv.build(c04.strip_rx(fields[k])), canon(a[3]), True):
+              cls = 'str-regex-ignored'      # is_compatible documents that it ignores Str regexes
+            return cls
     return None
 
   def nontrivial(self, case, out):
